@@ -26,6 +26,7 @@ from ._api import (
     Function,
     Module,
     Parameter,
+    ParameterAssignment,
     QualifiedImport,
     Result,
     TypeParameter,
@@ -927,7 +928,7 @@ class MyPyAstVisitor:
     def _parse_parameter_data(self, node: mp_nodes.FuncDef, function_id: str) -> list[Parameter]:
         arguments: list[Parameter] = []
 
-        for argument in node.arguments:
+        for index, argument in enumerate(node.arguments):
             mypy_type = argument.variable.type
             type_annotation = argument.type_annotation
             arg_type: AbstractType | None = None
@@ -956,6 +957,9 @@ class MyPyAstVisitor:
 
             # Get default value and infer type information
             initializer = argument.initializer
+            if (initializer is None or isinstance(initializer, mp_nodes.EllipsisExpr)) and argument.kind.is_optional():
+                # The constructor that is derived from the fields of a dataclass: the value of the field is the default
+                initializer = self._get_field_default(node, argument.variable.name) or initializer
             if initializer is not None:
                 default_value, default_is_none = self._get_parameter_type_and_default_value(initializer, function_id)
                 if arg_type is None and (default_is_none or default_value is not None):
@@ -966,6 +970,16 @@ class MyPyAstVisitor:
 
             # Create parameter docstring
             parent = self.__declaration_stack[-1]
+
+            # The first positional parameter of a method that is not static is the receiver, also where the type checker
+            # does not mark it (the constructor derived from the fields of a dataclass)
+            if (
+                index == 0
+                and isinstance(parent, Class)
+                and not node.is_static
+                and arg_kind in {ParameterAssignment.POSITION_ONLY, ParameterAssignment.POSITION_OR_NAME}
+            ):
+                arg_kind = ParameterAssignment.IMPLICIT
             docstring = self.docstring_parser.get_parameter_documentation(
                 function_qname=node.fullname,
                 parameter_name=arg_name,
@@ -989,6 +1003,28 @@ class MyPyAstVisitor:
             )
 
         return arguments
+
+    @staticmethod
+    def _get_field_default(node: mp_nodes.FuncDef, field_name: str) -> mp_nodes.Expression | None:
+        """Find the value that the class body assigns to a field ("y: int = 3" or "y: int = field(default=3)")."""
+        if node.name != "__init__" or not isinstance(node.info, mp_nodes.TypeInfo):
+            return None
+        class_def = node.info.defn
+
+        for statement in class_def.defs.body:
+            if not isinstance(statement, mp_nodes.AssignmentStmt):
+                continue
+            if not any(isinstance(lvalue, mp_nodes.NameExpr) and lvalue.name == field_name for lvalue in statement.lvalues):
+                continue
+
+            rvalue = statement.rvalue
+            if isinstance(rvalue, mp_nodes.CallExpr) and getattr(rvalue.callee, "name", "") == "field":
+                for arg_name, arg in zip(rvalue.arg_names, rvalue.args, strict=False):
+                    if arg_name == "default":
+                        return arg
+                return None
+            return None if isinstance(rvalue, mp_nodes.TempNode) else rvalue
+        return None
 
     def _get_parameter_type_and_default_value(
         self,
